@@ -11,3 +11,7 @@ import ElfiVerif.Model.Distance
 import ElfiVerif.Props.C12
 import ElfiVerif.Model.Npy
 import ElfiVerif.Props.C06
+import ElfiVerif.Model.Tools
+import ElfiVerif.Props.C18
+import ElfiVerif.Model.Engine
+import ElfiVerif.Props.C04
